@@ -385,7 +385,8 @@ def option_sets(r, n, all_flags=False):
             sizes = r.sample([("A$", 10), ("B$", 200), ("NM$", 5), ("A$()", 40), ("W$()", 12), ("ZZ$()", 7), ("K$", 33)],
                              r.choice([1, 2, 3]))
         out.append({"flags": flags, "storage": r.choice([32, 32, 80, 255, 1]),
-                    "procname": r.choice(["prog", "", "my_prog", "ecb_cls", "9x", "a-b"]), "sizes": sizes})
+                    "procname": r.choice(["prog", "", "my_prog", "ecb_cls", "9x", "a-b", "game\n", "x ", " x", "a.b", "ok_1", "\nq", "n\r"]),
+                    "sizes": sizes})
     return out
 
 
